@@ -149,3 +149,26 @@ Theorem C03_negation_of_a_combinator_of_built_globs_without_repetitions_is_a_fil
     filter (fun q => negb (matched exh nonexh q)) (yields (walk mind maxd ls root)).
 Proof. exact negation_of_any_of_built_rep_free_globs. Qed.
 Print Assumptions C03_negation_of_a_combinator_of_built_globs_without_repetitions_is_a_filter.
+
+From WaxProofs Require Import ExhaustRepFacts RuleAdjRep RuleZomRep NegationRep.
+
+(* with repetitions: every negated glob that builds, whose repetitions are written out at least once (not optional_repetition), are bounded
+   above or hold a bounded token, and have bodies that begin and end with a leaf, and that cannot end with a separator
+   (`not("<a/:1,>*/**/*")`, `not("{<ab:1,3>,c}/**")`): each `Always` verdict's promise is proved (C09 with repetitions), the adjacency
+   facts of every expansion come from C06 with repetitions *)
+Theorem C03_negation_of_any_built_glob_with_required_repetitions_is_a_filter : forall orbit e t r ext nxt exh nonexh,
+  build e = BuildOk t r -> required_reps t = true -> rep_class t = true -> shz t = true -> may_end_sep t = false ->
+  not_partition t = Ok (ext, nxt) -> decides orbit exh ext -> decides orbit nonexh nxt -> opt_match exh [] = false ->
+  (forall q, matched exh nonexh q = true <-> Lang orbit t (join_path q)) /\
+  forall ls mind maxd root, names_valid root ->
+    yields (walk mind maxd (ls ++ [nl exh nonexh]) root) =
+    filter (fun q => negb (matched exh nonexh q)) (yields (walk mind maxd ls root)).
+Proof. exact negation_of_any_built_glob_with_required_reps. Qed.
+Print Assumptions C03_negation_of_any_built_glob_with_required_repetitions_is_a_filter.
+
+(* the premises are satisfiable: <a/:1,>*/**/* - an exhaustive negation with a repetition *)
+Example C03_repetition_negation_nonvacuous :
+  let e := [60;97;47;58;49;44;62;42;47;42;42;47;42]%N in
+  exists t r ext, build e = BuildOk t r /\ required_reps t = true /\ rep_class t = true /\ shz t = true /\ may_end_sep t = false /\
+                  rep_free t = false /\ is_exhaustive t = Ok Always /\ not_partition t = Ok (Some ext, None).
+Proof. cbv zeta. do 3 eexists. repeat split; vm_compute; reflexivity. Qed.
